@@ -160,7 +160,7 @@ def run(facts, rep, tier):
     group_w = {}
     base = None
     # ---- R14.6: position-exact rendering by abstract interpretation (handles helpers, loops, dynamic widths)
-    _layout_check(facts, rep, rb, hb, hcfg, hflag, harr)
+    _layout_check(facts, rep, rb, hb, hcfg, hflag, harr, tier)
     _blank_check(facts, rep, rb, hb, hcfg, hflag, harr)
     _letters_check(facts, rep)
     e3_ok = not cfg.loops() and all(site_width(x) is not None for x in wblocks.values()) and \
@@ -171,7 +171,7 @@ def run(facts, rep, tier):
     for mask in (range(32) if e3_ok else []):
         fs = {FLAGS[i]: bool((mask >> i) & 1) for i in range(5)}
         # ---- header list along the pruned path
-        hcols = _walk_header(hb, hcfg, hflag, harr, fs)
+        hcols = _header_for(facts, hb, hcfg, hflag, harr, fs)
         hwidth = sum(w + 1 for _, w in hcols) + 2
         # ---- row DP
         lo, hi, order = _row_dp(rb, cfg, flag_sw, wblocks, fs)
@@ -383,6 +383,88 @@ def _fed_by_branch(body, bi):
     return _BR[key]
 
 
+_HDR = {}
+
+
+def _flag_bits(facts, fs):
+    """a DisplayFlags value whose accessors answer `fs` (found by evaluating the accessors abstractly on all 64 bit patterns)"""
+    from ..absint import k3 as K3
+    from ..absint.ctx import ref_to
+    from ..absint.domain import BoolV, IntV, StructV
+    key = ("bits", id(facts))
+    if key not in _HDR:
+        flags_adt = [n for n in facts.adts if n.endswith("::DisplayFlags")][0]
+        table = {}
+        for bits in range(64):
+            flags = StructV(flags_adt, {"bits": IntV.const("u8", bits)})
+            got = {}
+            for name in FLAGS:
+                fn = [b for b in facts.bodies.values() if b.name.endswith("DisplayFlags::" + name)]
+                if len(fn) != 1:
+                    raise Broken("C14 anchor: DisplayFlags::%s" % name)
+                I, v, st = K3.run_fn(facts, fn[0].name, lambda I, st: [ref_to(I, st, flags)], "flag %s" % name)
+                got[name] = v.val if isinstance(v, BoolV) else None
+            table.setdefault(tuple(got[n] for n in FLAGS), bits)
+        _HDR[key] = table
+    return _HDR[key].get(tuple(bool(fs[n]) for n in FLAGS))
+
+
+def _header_by_e2(facts, hb, fs):
+    """the header and separator lines as constant text (E2 constant propagation through the header builder, whatever its
+    shape), cut into (title, width) columns at the separator's runs of '-'.  None if the builder is not constant-foldable."""
+    from ..absint import k3 as K3
+    from ..absint.ctx import ref_to
+    from ..absint.domain import IntV, StrV, StructV
+    bits = _flag_bits(facts, fs)
+    if bits is None:
+        return None
+    key = ("hdr", id(facts), bits)
+    if key in _HDR:
+        return _HDR[key]
+    flags_adt = [n for n in facts.adts if n.endswith("::DisplayFlags")][0]
+    flags = StructV(flags_adt, {"bits": IntV.const("u8", bits)})
+    out = None
+    try:
+        I, v, st = K3.run_fn(facts, hb.name, lambda I, st: [ref_to(I, st, flags)], "header %d" % bits)
+    except Exception:
+        v = None
+    if isinstance(v, StructV):
+        texts = [x.text for x in v.fields.values() if isinstance(x, StrV) and x.skind == "lit"]
+        seps = [x for x in texts if x.strip("\n") and set(x.strip("\n")) <= set("- ")]
+        heads = [x for x in texts if x not in seps]
+        if len(seps) == 1 and len(heads) == 1:
+            S, H = seps[0].rstrip("\n"), heads[0].rstrip("\n")
+            cols = []
+            pos = 0
+            ok = len(S) == len(H)
+            for run in S.split(" "):
+                if not run or set(run) != {"-"}:
+                    ok = False
+                    break
+                cols.append((H[pos:pos + len(run)].strip(), len(run)))
+                if pos + len(run) < len(H) and H[pos + len(run)] != " ":
+                    ok = False
+                pos += len(run) + 1
+            if ok and cols:
+                if cols[-1] == ("LC", 2):
+                    cols = cols[:-1]
+                out = cols
+    _HDR[key] = out
+    return out
+
+
+def _header_for(facts, hb, hcfg, hflag, harr, fs):
+    cols = _walk_header(hb, hcfg, hflag, harr, fs)
+    e2 = _header_by_e2(facts, hb, fs)
+    if e2 is not None:
+        if cols and [(n, int(w)) for n, w in cols] != e2:
+            raise Broken("C14: the header columns read from the MIR (%s...) and by constant propagation (%s...) differ" % (cols[:3], e2[:3]))
+        cols = e2
+    if not cols:
+        raise Broken("C14 anchor: the header columns could not be read (flags %s)" % sorted(k for k, v in fs.items() if v))
+    return cols
+
+
 def _walk_header(hb, hcfg, hflag, harr, fs):
     cols = list(harr.get(0, []))
     seen = set()
@@ -404,13 +486,18 @@ def _walk_header(hb, hcfg, hflag, harr, fs):
     return cols
 
 
-def _layout_check(facts, rep, rb, hb, hcfg, hflag, harr):
+def _layout_check(facts, rep, rb, hb, hcfg, hflag, harr, tier="quick"):
     from ..absint import k3 as K3
     from ..absint.ctx import new_interp, ref_to
     from ..absint.domain import BoolV, IntV, LayoutV, StructV
     from ..absint.interp import Diverge, State
     flags_adt = [n for n in facts.adts if n.endswith("::DisplayFlags")][0]
     n = 0
+    # the ranges the row's numeric fields can take: hull of everything any decode context stores (E2/K2) - needed only to
+    # show that the one-character cells (category digits, version, ...) are one character wide
+    from ..absint.batch import k2_results
+    hulls = {k: v for k, v in k2_results(facts, tier)["hulls"]["ranges"].items()
+             if k in ("category.0", "category.1", "adsb_version", "last_df", "last_type_code")}
     for bits in range(32):
         n += 1
         flags = StructV(flags_adt, {"bits": IntV.const("u8", bits)})
@@ -424,13 +511,13 @@ def _layout_check(facts, rep, rb, hb, hcfg, hflag, harr):
             if not (isinstance(v, BoolV) and v.val is not None):
                 raise Broken("C14: DisplayFlags::%s(bits=%d) is not decided" % (name, bits))
             fs[name] = v.val
-        hcols = _walk_header(hb, hcfg, hflag, harr, fs)
+        hcols = _header_for(facts, hb, hcfg, hflag, harr, fs)
         I = new_interp(facts)
         I.side["layout_mode"] = True
         I.ctx_label = "layout flags=%s" % bits
         I.infeasible_edges = _fmt_err_edges(facts)
         st = State()
-        row = K3.row_with_hulls(facts, {})
+        row = K3.row_with_hulls(facts, hulls)
         sink = I.new_cell(st, LayoutV())
         from ..absint.domain import RefV
         try:
@@ -608,7 +695,7 @@ def _blank_check(facts, rep, rb, hb, hcfg, hflag, harr):
     plane_adt = [n for n in facts.adts if n.endswith("::Plane")][0]
     optional = {f["name"] for f in facts.adts[plane_adt]["variants"][0]["fields"] if f["ty"]["s"].startswith("std::option::Option<")} | {"lat", "lon"}
     fs = {name: True for name in FLAGS}
-    hcols = _walk_header(hb, hcfg, hflag, harr, fs)
+    hcols = _header_for(facts, hb, hcfg, hflag, harr, fs)
     flags = StructV(flags_adt, {"bits": IntV.const("u8", 31)})
     base = K3.row_with_hulls(facts, {})
     cases = []
